@@ -8,7 +8,15 @@ def runC20 (op : String) (j : Json) : R Json := do
   | "download" =>
     let prior ← asOptNat' j "prior"
     let ds ← getNats j "ds"
-    let dsc := ds.map fun d => if d == 0 then DataResp.httpError else DataResp.body d
+    -- the data script: either tokens (`ds`: 0 = HTTP error, else the body), or what the server really sends
+    -- (`dstat`: the status of each answer, `ds`: the token of the body / error page it carries), read through the
+    -- model of `_download` (`dataOfStatus`)
+    let dsc ← if hasFld j "dstat" then do
+        let dstat ← getNats j "dstat"
+        let dbody ← getNats j "dbody"
+        if dstat.length != dbody.length then .error "dstat / dbody: same length expected"
+        pure (List.zipWith dataOfStatus dstat dbody)
+      else pure (ds.map fun d => if d == 0 then DataResp.httpError else DataResp.body d)
     -- the checksum script: either tokens (`ss`), or what the server really sends (`answers`: null = non-200,
     -- else the code points of the text) parsed by the model of `text.split()[0]` (`render`: [token, hexdigest])
     let ssc ← if hasFld j "answers" then do
@@ -19,8 +27,11 @@ def runC20 (op : String) (j : Json) : R Json := do
           | [t, d] => do pure ((← asNat t), (← asList asNat d))
           | _ => .error "render: [token, code points] expected")
         let other ← getNat j "other"
-        pure (answers.map fun a => parseSum render other (match a with
-          | none => SumAnswer.error | some t => SumAnswer.text t))
+        -- `sstat` (optional): the status of each answer of the checksum URL, read through `sumOfStatus`
+        let sstat ← if hasFld j "sstat" then getNats j "sstat" else pure (answers.map fun _ => 200)
+        if sstat.length != answers.length then .error "sstat / answers: same length expected"
+        pure (List.zipWith (fun a st => parseSum render other (match a with
+          | none => SumAnswer.error | some t => sumOfStatus st t)) answers sstat)
       else do
         let ss ← getNats j "ss"
         pure (ss.map fun s => if s == 0 then SumResp.missing else SumResp.avail s)
@@ -30,6 +41,8 @@ def runC20 (op : String) (j : Json) : R Json := do
     pure (Json.mkObj [("result", Json.str res), ("file", jOpt jNat r.1.file),
                       ("log", jList (fun (q : Req × Option SumResp) =>
                           Json.str (match q.1 with | .data => "data" | .sum => "sum")) r.1.log),
+                      ("ds", jList (fun (q : DataResp) => match q with
+                          | .body b => jNat b | .httpError => jNat 0) dsc),
                       ("ss", jList (fun (q : SumResp) => match q with
                           | .avail h => jNat h | .missing => jNat 0) ssc),
                       ("last_sum", match lastSum r.1.log with
